@@ -79,7 +79,6 @@ type OlvmWorld struct {
 // NewOlvmWorld funds nEth Ethereum-keyed accounts; the last one only with a small amount (a few
 // transactions' worth of gas) so that low-balance branches are reached.
 func NewOlvmWorld(p Params, nEth int) *OlvmWorld {
-	p.NEth = 0 // the accounts are added below
 	w := NewWorld(p)
 	ow := &OlvmWorld{World: w, EvmID: utils.HashToBigInt(w.ChainID)}
 	fund := oltUnits(1000)
